@@ -4,6 +4,7 @@ import (
 	"bytes"
 	"encoding/json"
 	"fmt"
+	"reflect"
 )
 
 func sprint(v interface{}) string { return fmt.Sprint(v) }
@@ -35,3 +36,5 @@ func maxI64(a, b int64) int64 {
 	}
 	return b
 }
+
+func reflectValue(v interface{}) reflect.Value { return reflect.ValueOf(v) }
